@@ -95,3 +95,54 @@ theorem enqueue_abs (r : Rbuf) (x : Nat) (m : Mem) (h : r.Inv) :
         rw [this, Buf.get_put_eq]; omega
 
 end CC.Rbuf
+
+namespace CC.Rbuf
+open CC
+
+theorem dequeue_empty (r : Rbuf) (m : Mem) (h : r.size = 0) :
+    r.dequeue m = (.errOutOfRange, none, r, m) := by simp [dequeue, h]
+
+theorem dequeue_inv (r : Rbuf) (m : Mem) (h : r.Inv) : (r.dequeue m).2.2.1.Inv := by
+  obtain ⟨hc, hl, hs, ht, hh⟩ := h
+  unfold dequeue
+  split
+  · exact ⟨hc, hl, hs, ht, hh⟩
+  · have c0 := mod_cases (x := r.tail + r.size) (c := r.cap) (by omega)
+    have c1 := mod_cases (x := r.tail + 1) (c := r.cap) (by omega)
+    have c2 := mod_cases (x := (r.tail + 1) % r.cap + (r.size - 1)) (c := r.cap) (by omega)
+    refine ⟨hc, hl, ?_, ?_, ?_⟩ <;> simp only <;> omega
+
+theorem dequeue_nofault (r : Rbuf) (m : Mem) (h : r.Inv) : (r.dequeue m).2.2.2 = m := by
+  obtain ⟨hc, hl, hs, ht, hh⟩ := h
+  unfold dequeue
+  split
+  · rfl
+  · have : (r.cap != 0) = true := by simp; omega
+    have : decide (r.tail < r.buf.length) = true := by simp; omega
+    simp [*]
+
+theorem dequeue_refines (r : Rbuf) (m : Mem) (h : r.Inv) :
+    let res := r.dequeue m
+    let sres := (Spec.Fifo.mk r.cap r.abs).dequeue
+    res.1 = sres.1 ∧ res.2.1 = sres.2.1 ∧ res.2.2.1.abs = sres.2.2.items := by
+  obtain ⟨hc, hl, hs, ht, hh⟩ := h
+  by_cases h0 : r.size = 0
+  · simp [dequeue, h0, abs, Spec.Fifo.dequeue]
+  · have habs : r.abs = r.buf.get r.tail :: (List.range (r.size - 1)).map (fun i => r.buf.get (((r.tail + 1) % r.cap + i) % r.cap)) := by
+      apply List.ext_getElem
+      · simp [abs]; omega
+      · intro i h1 h2
+        simp only [abs, List.getElem_map, List.getElem_range]
+        cases i with
+        | zero => simp [Nat.mod_eq_of_lt ht]
+        | succ j =>
+          simp only [List.getElem_cons_succ, List.getElem_map, List.getElem_range]
+          simp [abs] at h1
+          have c1 := mod_cases (x := r.tail + 1) (c := r.cap) (by omega)
+          have c2 := mod_cases (x := (r.tail + 1) % r.cap + j) (c := r.cap) (by omega)
+          have c3 := mod_cases (x := r.tail + (j + 1)) (c := r.cap) (by omega)
+          congr 1; omega
+    simp only [dequeue, h0, if_false, Spec.Fifo.dequeue, habs]
+    simp [abs]
+
+end CC.Rbuf
